@@ -29,13 +29,14 @@ from ..models import stats as MS
 PROPERTY = "C20"
 NUM = 20
 RULE = ("cases = traditional (2-20 windows) / azimuthal (1-5 azimuths x 2-15 windows) / diffuse-field results after a "
-        "history of 0-4 steps (range updates, FDWRA, time-domain and manual rejections) and a family of windows without a "
-        "peak in a narrow search range; at 1-3 states per case one or more of the seven functions is called with random "
-        "boolean options, distribution_mc x distribution_fn in {normal,lognormal}^2, created or user-supplied axes, "
-        "recordings (1-12 windows of 120-400 samples) with the object's mask / a list / None, normalised or not; states in "
-        "which a required statistic is undefined are called with probability 0.35 (the refusal is accepted, the snapshot is "
-        "still judged); non-trivial = at least one rejected window or a bounded search range; distinct = (function, kind, "
-        "sizes, masks, range, distributions, options) signatures")
+        "history of 0-4 steps (range updates, FDWRA, time-domain and manual rejections), plus a family in which some windows "
+        "have no peak in a narrow search range (rejected by the peak search; after a time-domain step also accepted without a "
+        "peak); at 1-3 states per case one or more of the seven functions is called with random boolean options, "
+        "distribution_mc x distribution_fn in {normal,lognormal}^2, created or user-supplied axes, recordings (1-12 windows of "
+        "120-400 samples) with the object's mask / a list / None / a single recording, normalised or not; states in which a "
+        "statistic is undefined are also called (always for the pre/post figure, else with probability 0.35): the refusal is "
+        "accepted, the snapshot is still judged; non-trivial = at least one rejected window or a bounded search range; "
+        "distinct = (kind, functions, masks, range) signatures")
 ASSUMPTIONS = [
     "expected statistics are the accessors of a deep copy of the object taken before the call (C05/C08/C11 judge the accessors); "
     "the period row is judged against models/stats.py (azimuth-weighted for azimuthal results)",
@@ -62,7 +63,7 @@ NOT_REACHED = ["plot_voronoi / summarize_spatial_statistics (take no HVSR object
                "a mean-fn line (this version draws only the +-1 sigma band)", "contourf_kwargs other than levels/cmap",
                "find_peaks_kwargs other than None/{}", "more than 5 azimuths, more than 20 windows"]
 BUDGET = {"quick": dict(cases=160, seconds=60, shards=4),
-          "thorough": dict(cases=4800, seconds=600, shards=16)}
+          "thorough": dict(cases=12000, seconds=600, shards=16)}
 REQUIRED = ["mon:object-unchanged", "mon:recordings-unchanged", "mon:arguments-and-defaults-unchanged",
             "mon:accepted-lines-are-accepted-curves", "mon:rejected-lines-are-rejected-curves",
             "mon:mean-and-std-lines-are-the-statistics", "mon:mean-curve-peak-marker", "mon:window-peak-markers",
